@@ -274,6 +274,26 @@ let run_astexec (line : string) : string =
        | Err (e, s) -> Printf.sprintf "ERR %s clk=%s" (err_string e) (s_of_z s.clk))
   | _ -> failwith "bad astexec case"
 
+(* case: same as exec.  Output: OK rows=<n> ops=<op recorded in each row> *)
+let run_stream (line : string) : string =
+  match String.split_on_char '|' line with
+  | [maxs; stacks; advs; progs] ->
+      let maxc = z_of_string (String.trim (List.hd (String.split_on_char ',' maxs))) in
+      let t = { v = Array.of_list (split_ws progs); i = 0 } in
+      let prog, hashes = parse_program t in
+      let stack = List.map (parse_val hashes) (split_ws stacks) in
+      let adv = List.map (parse_val hashes) (split_ws advs) in
+      let fuel =
+        let m = try Big_int_Z.int_of_big_int maxc with _ -> max_int in
+        nat_of_int (min (2 * m + 4) fuel_cap) in
+      let base n = List.hd (String.split_on_char ':' n) in
+      (match exec_program fuel maxc prog stack adv with
+       | Ok s ->
+           let ops = List.rev_map (fun o -> base (op_name o)) s.olog in
+           Printf.sprintf "OK rows=%d ops=%s" (List.length ops) (String.concat "," ops)
+       | Err (e, _) -> Printf.sprintf "ERR %s" (err_string e))
+  | _ -> failwith "bad stream case"
+
 let () =
   let family = Sys.argv.(1) in
   let ic = open_in Sys.argv.(2) in
@@ -288,6 +308,7 @@ let () =
               | "options" -> run_options line
               | "spec" -> run_spec_case line
               | "lower" -> run_lower line
+              | "stream" -> run_stream line
               | "astexec" -> run_astexec line
               | _ -> failwith "unknown family")
            with Failure m -> "DRIVER-FAIL " ^ m
